@@ -55,7 +55,7 @@ def run_property(pid, tier, seed, only=None):
     results, metas = [], []
     for cls in classes:
         try:
-            res, meta = C.run_contract(cls, tier=tier, cross=(tier == "thorough"))
+            res, meta = C.run_contract(cls, tier=tier, cross=(tier == "thorough"), no_replay=set(open_findings))
         except Exception as e:  # crash of the machinery itself
             r = C.Result(cls.target + "/machinery", cls.target, "-", "machinery", cls.kind)
             r.verdict = "crash"
@@ -107,7 +107,8 @@ def run_property(pid, tier, seed, only=None):
         suffix = "" if confirmed else " no-failing-input-found"
         lines.append(f"VIOLATION property={pid} replay={path} obligation={r.name}{suffix}")
     # keep the machine-readable line format exact: VIOLATION property=<id> replay=<path>[ ... no-failing-input-found]
-    n_obl = len(obls)
+    # obligations expected to hold on this tree = all generated obligations minus the open known findings
+    n_obl = len(obls) - sum(1 for r in known_hit if r.kind not in ("canary", "bounded"))
     n_dis = sum(1 for r in obls if r.verdict == "proved")
     few = n_obl < expected.get(pid, 1)
 
